@@ -13,6 +13,7 @@ import (
 	"sort"
 	"strings"
 	"sync"
+	"sync/atomic"
 	"time"
 
 	"golang.org/x/tools/go/ssa"
@@ -189,6 +190,11 @@ func (m *Machine) evalBool(c *Term) bool {
 }
 
 func (m *Machine) query(extra ...*Term) (string, map[string]uint64) {
+	if m.h != nil && m.h.stopped.Load() {
+		// the exploration of this harness has ended (enough counterexamples,
+		// budget, engine error): paths still running are abandoned
+		panic(pathAbort{"exploration stopped"})
+	}
 	as := make([]*Term, 0, len(m.pc)+len(extra))
 	as = append(as, m.pc...)
 	as = append(as, extra...)
@@ -558,6 +564,7 @@ func (m *Machine) reportEnd(kind, detail, pos string) {
 // ---------------------------------------------------------------- harness runs
 
 type Harness struct {
+	stopped       atomic.Bool
 	Name          string
 	Pkg           string
 	Fn            *ssa.Function
@@ -655,11 +662,13 @@ func runHarness(p *Program, h *Harness, nworkers int) *HarnessResult {
 					if res.Paths >= h.MaxPaths && len(queue) > 0 {
 						res.BudgetHit = true
 						stop = true
+						h.stopped.Store(true)
 					}
 					if res.NewViolations >= 12 && len(queue) > 0 {
 						// enough counterexamples to report; the rest of the space is not explored
 						res.StoppedOnViolations = true
 						stop = true
+						h.stopped.Store(true)
 					}
 				}
 				mu.Unlock()
